@@ -529,7 +529,7 @@ class Ownership:
     kinds = ["asan"]
     quick_sanitize = True
     leaks = True
-    timeout = 900
+    timeout = 600
 
     def n(self, tier, quick, thorough, scale=1.0):
         return max(1, int((thorough if tier == "thorough" else quick) * scale))
@@ -686,6 +686,44 @@ class Ownership:
              ["dmerge"] * 2 + ["val"] * 3 + ["valmod"] + ["valop"] + ["impl"] * 2 + ["xfind"] * 2 + ["print"] * 2 + ["lys"] * 2)
 
     # ---- fixed scripts: the deliberately failing calls, one construct per case ------------------------------------------
+    def known(self):
+        """one minimal reproducer per confirmed libyang defect: tag -> case line (also the replay lines of
+        known_findings.d/ht.json)"""
+        P, h = self.parse, _hx
+        A, Y = _NSA, _NSY
+        two = '<l %s><k1>c</k1><k2>2</k2></l><c %s><i8>1</i8></c>' % (A, A)
+        K = [
+            ("diff-apply-userord-create-nometa-leak",
+             [P("0", '<ul2 %s><k>a</k></ul2>' % A, 0, _P_ONLY), P("0", '<ul2 %s %s yang:operation="create"><k>z</k></ul2>' % (A, Y), 1, _P_ONLY),
+              ["apply", 0, 1]]),
+            ("merge-destruct-einval-source-not-consumed",
+             [P("0", '<top %s>t</top>' % A, 0, _P_ONLY), P("1", '<top %s>u</top>' % A, 1, _P_ONLY), ["merge", 0, 1, _MERGE_DESTRUCT, "s"]]),
+            ("parse-multi-error-syntax-leak", [P("0", '<l %s><k1>c<k1><k2>3</k2></l>' % A, 0, _P_ONLY, _V_MULTI)]),
+            ("parse-multi-error-bad-meta-assert", [P("0", '<top %s %s yang:operation="bogus">t</top>' % (A, Y), 0, _P_ONLY, _V_MULTI)]),
+            ("out-not-null:parsep",
+             [P("0", '<c %s><s>a</s></c>' % A, 0, _P_ONLY), ["parsep", "0.0", "x", _P_ONLY, 0, h('<i8 %s>4</i8><i8>5</i8>' % A)]]),
+            ("parse-parent-nothing-parsed-implicit-leak",
+             [P("0", '<c %s><s>a</s></c>' % A, 0, _P_ONLY), ["parsep", "0.0", "x", 0, 0, h('<top %s>1</top>' % A)]]),
+            ("log-location-unbalanced:path",
+             [P("0", '<top %s>t</top>' % A, 0, _P_ONLY), ["path", "0.0", "~", h("/a:l[k9='a'][k2='1']"), "~", 0]]),
+            ("insert-multi-node-stale-first-src",
+             [P("0", two, 0, _P_ONLY), P("0", '<l %s><k1>d</k1><k2>3</k2></l><c %s><i8>1</i8></c>' % (A, A), 1, _P_ONLY), ["ins", "s", "0.0", "1.0"]]),
+            ("any-update-keeps-caller-buffer:path",
+             [P("0", '<c %s><ax>t</ax></c>' % A, 0, _P_ONLY), ["path", "0.0", "~", h("/a:c/ax"), h("uu"), _NEW_PATH_UPDATE]]),
+            ("new-path-nested-parent-toplevel-misplaced",
+             [P("0", '<l %s><k1>c</k1><k2>1</k2></l>' % A, 0, _P_ONLY), ["path", "0.1", "~", h("/a:c/p/man"), h("m"), 0]]),
+            ("insert-sibling-first-of-own-list-assert",
+             [P("0", '<c %s><ol><k>y</k></ol><ol><k>z</k></ol></c>' % A, 0, _P_ONLY), ["ins", "s", "0.3", "0.1"]]),
+            ("validate-first-node-autodel-uaf", [P("0", '<c %s><zz/></c><c %s><sl>x</sl></c>' % (A, A), 0)]),
+            ("xml-anyxml-mixed-content-assert", [P("0", '<c %s><ax>t<b/></ax></c>' % A, 0, _P_ONLY)]),
+            ("insert-opaque-anchor-no-schema-check",
+             [P("0", '<c %s><i8></i8><sl>x</sl></c>' % A, 0, _P_ONLY | _P_OPAQ), ["term", "~", "a0", h("sll"), h("s2"), 0, 1], ["ins", "b", "0.2", "1.0"]]),
+            ("insert-multi-node-lyds-merge-assert",
+             [P("0", '<l %s><k1>b</k1><k2>1</k2><v>v1</v></l><ul2 %s><k>b</k></ul2>' % (A, A), 0, _P_ONLY),
+              P("0", '<l %s><k1>a</k1><k2>1</k2><v>v3</v></l><l %s><k1>b</k1><k2>3</k2></l>' % (A, A), 1, _P_ONLY), ["ins", "s", "0.0", "1.0"]]),
+        ]
+        return [(t, _own_line(c)) for t, c in K]
+
     def fixed(self):
         P = self.parse
         base = ('<l %s><k1>a</k1><k2>1</k2><v>v1</v></l><l %s><k1>b</k1><k2>2</k2></l><c %s><i8>11</i8><s>abc</s><lr>a</lr><w>w</w>'
@@ -813,9 +851,9 @@ class Ownership:
         return L
 
     def gen(self, rng, tier, scale=1.0):
-        L = self.fixed()
+        L = [l for _, l in self.known()] + self.fixed()
         dg = _OwnDoc(rng)
-        for _ in range(self.n(tier, 1500, 60000, scale)):
+        for _ in range(self.n(tier, 700, 40000, scale)):
             cmds = []
             nslots = rng.choice([2, 3, 3, 4])
             for s in range(nslots):
@@ -862,7 +900,8 @@ class Ownership:
             for rx, c, tag in self.CRASHES:
                 if (c is None or c == cmd or (cmd or "").startswith(c)) and _re.search(rx, err):
                     return (tag, "%s in command %s (%s)" % (out, m.group(1) if m else "?", cmd))
-            return ("crash:" + cmd if cmd else "crash", "%s %s" % (out, ("in command %s (%s)" % (m.group(1), cmd)) if m else ""))
+            kind = "hang" if out in ("CRASH(-14)", "TIMEOUT") else "crash"
+            return ("%s:%s" % (kind, cmd) if cmd else kind, "%s %s" % (out, ("in command %s (%s)" % (m.group(1), cmd)) if m else ""))
         parts = out.split(" | ")
         if out.startswith("SETUP-FAILED"):
             return (None, out)
@@ -879,6 +918,8 @@ class Ownership:
                     tag = "merge-destruct-einval-source-not-consumed"
                 elif f.group(1) == "LINK" and "schema parent" in p and cmd.startswith("path"):
                     tag = "new-path-nested-parent-toplevel-misplaced"
+                elif f.group(1) == "LINK" and cmd == "ins" and "schema parent" in p:
+                    tag = "insert-opaque-anchor-no-schema-check"
                 elif f.group(1) == "LINK" and cmd == "ins":
                     tag = "insert-multi-node-stale-first-src"
                 return (tag, "command %d %s" % (i, p))
